@@ -533,6 +533,65 @@ fn through_link(root: &Path, p: &Path) -> bool {
     false
 }
 
+/// `sccache-dist __verif_paths fakebwrap <log dir> <bwrap args...>`: the stand-in for bubblewrap, the one program
+/// the overlay builder starts ON THE HOST for a job.  Notes how it was started - its argument vector up to the
+/// command, the `--setenv` pairs, and every difference between its own environment and the server's
+/// (`<log dir>/server-env`) - in `<log dir>/launch`, then does what `fakejob` does.
+fn fakebwrap(args: &[String]) -> i32 {
+    let log = Path::new(&args[0]);
+    let a = &args[1..];
+    let (mut target, mut cwd) = (String::new(), String::new());
+    let mut note = String::new();
+    let mut i = 0;
+    while i < a.len() {
+        note.push_str(&format!("argv {}\n", hex(a[i].as_bytes())));
+        match a[i].as_str() {
+            "--bind" if i + 2 < a.len() => {
+                target = a[i + 1].clone();
+            }
+            "--chdir" if i + 1 < a.len() => {
+                cwd = a[i + 1].clone();
+            }
+            "--setenv" if i + 2 < a.len() => {
+                note.push_str(&format!("setenv {} {}\n", hex(a[i + 1].as_bytes()), hex(a[i + 2].as_bytes())));
+            }
+            "--" => {
+                i += 1;
+                break;
+            }
+            _ => {}
+        }
+        i += 1;
+    }
+    if i < a.len() {
+        note.push_str(&format!("argv {}\n", hex(a[i].as_bytes())));
+    }
+    let mut reference = BTreeMap::new();
+    for l in std::fs::read_to_string(log.join("server-env")).unwrap_or_default().lines() {
+        let mut it = l.splitn(2, ' ');
+        let k = unhex(it.next().unwrap_or(""));
+        reference.insert(k, unhex(it.next().unwrap_or("")));
+    }
+    let mine: BTreeMap<Vec<u8>, Vec<u8>> = std::env::vars_os()
+        .map(|(k, v)| (k.as_bytes().to_vec(), v.as_bytes().to_vec()))
+        .collect();
+    for (k, v) in &mine {
+        // (the shell that ran the script may add these)
+        if reference.get(k) != Some(v) && !matches!(k.as_slice(), b"PWD" | b"OLDPWD" | b"SHLVL" | b"_") {
+            note.push_str(&format!("envset {} {}\n", hex(k), hex(v)));
+        }
+    }
+    for k in reference.keys() {
+        if !mine.contains_key(k) && !matches!(k.as_slice(), b"PWD" | b"OLDPWD" | b"SHLVL" | b"_") {
+            note.push_str(&format!("envgone {}\n", hex(k)));
+        }
+    }
+    let _ = std::fs::write(log.join("launch"), note);
+    let mut rest = vec![target, cwd];
+    rest.extend_from_slice(&a[i.min(a.len())..]);
+    fakejob(&rest)
+}
+
 /// `sccache-dist __verif_paths fakejob <target> <cwd> <exe> <args...>`: what the fake bwrap script runs
 /// in place of the sandboxed compiler.  args: `snap:<hex file>`, `w:<hex path>:<hex content>`,
 /// `l:<hex path>:<hex link target>`, `r:<hex path>:<hex link target>`, `hold:<hex file>`; paths are interpreted
@@ -665,9 +724,18 @@ impl World {
 
     /// `archives` = how many toolchain archives the TcCache has room for (0 = no practical limit)
     fn with_cache_for(archives: u64) -> Result<World, String> {
+        World::with(archives, false)
+    }
+
+    /// `on_overlay`: the server's directories lie on the overlay that `contain` put over `/` - a file system the
+    /// kernel does not take as the upper layer of another overlay, like the root of a container
+    fn with(archives: u64, on_overlay: bool) -> Result<World, String> {
+        if on_overlay {
+            std::fs::create_dir_all(ON_OVERLAY).map_err(|e| e.to_string())?;
+        }
         let td = tempfile::Builder::new()
             .prefix("vp-c19-")
-            .tempdir_in("/dev/shm")
+            .tempdir_in(if on_overlay { ON_OVERLAY } else { "/dev/shm" })
             .map_err(|e| e.to_string())?;
         // The server's directories sit 40 levels below the temporary directory, so that a defect of the kind
         // this check looks for (a path with many `..`, a link pointing upwards) lands inside the temporary
@@ -691,15 +759,19 @@ impl World {
             &bwrap,
             format!(
                 "#!/bin/sh\nif [ \"$1\" = \"--version\" ]; then echo 'bubblewrap 0.8.0'; exit 0; fi\n\
-                 target=; cwd=\nwhile [ $# -gt 0 ]; do case \"$1\" in\n\
-                 --bind) target=\"$2\"; shift 3;;\n--chdir) cwd=\"$2\"; shift 2;;\n--) shift; break;;\n\
-                 --cap-drop|--proc|--dev) shift 2;;\n--setenv) shift 3;;\n*) shift;;\nesac; done\n\
-                 exec '{}' __verif_paths fakejob \"$target\" \"$cwd\" \"$@\"\n",
-                exe.display()
+                 exec '{}' __verif_paths fakebwrap '{}' \"$@\"\n",
+                exe.display(),
+                root.join("log").display()
             ),
         )
         .map_err(|e| e.to_string())?;
         std::fs::set_permissions(&bwrap, std::fs::Permissions::from_mode(0o755)).map_err(|e| e.to_string())?;
+        // the environment of the server: what the launcher of a job is expected to be started with
+        let mut envref = String::new();
+        for (k, v) in std::env::vars_os() {
+            envref.push_str(&format!("{} {}\n", hex(k.as_bytes()), hex(v.as_bytes())));
+        }
+        std::fs::write(root.join("log/server-env"), envref).map_err(|e| e.to_string())?;
         let builder = build::OverlayBuilder::new(bwrap, root.join("srv/build")).map_err(|e| format!("{:#}", e))?;
         let blob = toolchain_blob();
         let blob2 = toolchain_blob2();
@@ -814,10 +886,22 @@ impl World {
             if let Some(h) = hold {
                 arguments.push(format!("hold:{}", hex(h.as_os_str().as_bytes())));
             }
+            // the client's environment variables: `((#name #value) ...)`, optional 9th element of a job
+            let env_vars: Vec<(String, String)> = op
+                .arg(8)
+                .list()
+                .iter()
+                .filter_map(|e| {
+                    Some((
+                        String::from_utf8(e.arg(0).bytes().to_vec()).ok()?,
+                        String::from_utf8(e.arg(1).bytes().to_vec()).ok()?,
+                    ))
+                })
+                .collect();
             let command = CompileCommand {
                 executable: "job".to_owned(),
                 arguments,
-                env_vars: vec![],
+                env_vars,
                 cwd,
             };
             Some((command, outs, raw_tar(op.arg(6).list())))
@@ -886,6 +970,35 @@ impl World {
             }
             let _ = std::fs::remove_file(snapfile.unwrap());
         }
+        // how the launcher (the stand-in bwrap) of this job was started
+        let mut launcher = vec![Sx::sym("launcher")];
+        let launch = self.root.join("log/launch");
+        if snapfile.is_some() {
+            if let Ok(s) = std::fs::read_to_string(&launch) {
+                let (mut argv, mut setenv, mut envdiff) = (vec![Sx::sym("argv")], vec![Sx::sym("setenv")], vec![Sx::sym("envdiff")]);
+                for line in s.lines() {
+                    let f: Vec<&str> = line.split(' ').collect();
+                    match f[0] {
+                        "argv" => {
+                            let v = unhex(f[1]);
+                            let v = match path_of(&v).strip_prefix(&self.root) {
+                                Ok(rel) => rel.as_os_str().as_bytes().to_vec(),
+                                Err(_) => v,
+                            };
+                            argv.push(Sx::B(v))
+                        }
+                        "setenv" => setenv.push(Sx::L(vec![Sx::B(unhex(f[1])), Sx::B(unhex(f[2]))])),
+                        "envset" => envdiff.push(Sx::L(vec![Sx::sym("set"), Sx::B(unhex(f[1])), Sx::B(unhex(f[2]))])),
+                        "envgone" => envdiff.push(Sx::L(vec![Sx::sym("gone"), Sx::B(unhex(f[1]))])),
+                        _ => {}
+                    }
+                }
+                launcher.push(Sx::L(argv));
+                launcher.push(Sx::L(setenv));
+                launcher.push(Sx::L(envdiff));
+                let _ = std::fs::remove_file(&launch);
+            }
+        }
         // what there is below builds/
         let left: Vec<Sx> = walk(&self.root.join("srv/build/builds"))
             .into_keys()
@@ -917,6 +1030,7 @@ impl World {
             Sx::L(vec![Sx::sym("toolchains"), toolchains]),
             Sx::L(vec![Sx::sym("cache"), cache]),
             Sx::L(vec![Sx::sym("escaped"), Sx::L(self.escapes())]),
+            Sx::L(launcher),
         ])
     }
 
@@ -1036,6 +1150,8 @@ fn fs_case(case: &Sx) -> Sx {
 /// root directory is an overlay (lower layer: the real `/`, upper layer: a directory in that tmpfs): whatever
 /// gets written below `/` lands in the upper directory, which `root_writes` lists, and disappears with the process.
 const UPPER: &str = "/dev/shm/c19-root/up";
+/// where the server's directories go when they are to lie on the overlay over `/`
+const ON_OVERLAY: &str = "/var/tmp/vp-c19-on-overlay";
 
 fn contain() -> Result<(), String> {
     use nix::mount::{mount, MsFlags};
@@ -1072,6 +1188,10 @@ fn root_writes() -> Vec<Sx> {
     let mut seen = SEEN.lock().unwrap();
     walk(Path::new(UPPER))
         .into_iter()
+        .filter(|(k, _)| {
+            let own = &ON_OVERLAY.as_bytes()[1..];
+            !(k.starts_with(own) || own.starts_with(k))
+        })
         .filter(|(k, _)| seen.insert(k.clone()))
         .map(|(k, (kind, _))| {
             let mut p = b"/".to_vec();
@@ -1084,7 +1204,8 @@ fn root_writes() -> Vec<Sx> {
 /// leg fs2: like fs, with a toolchain cache of a given capacity, a second toolchain and jobs that are still
 /// running while others are handled
 fn fs2_case(case: &Sx) -> Sx {
-    let mut w = match World::with_cache_for(case.arg(0).num() as u64) {
+    // optional third element: 1 = the server's directories lie on an overlay
+    let mut w = match World::with(case.arg(0).num() as u64, case.arg(2).num() == 1) {
         Ok(w) => w,
         Err(e) => return Sx::L(vec![Sx::sym("env_unsupported"), Sx::B(e.into_bytes())]),
     };
@@ -1100,12 +1221,14 @@ fn fs2_case(case: &Sx) -> Sx {
 fn fakedocker(args: &[String]) -> i32 {
     let dir = Path::new(&args[0]);
     let a: Vec<&str> = args[1..].iter().map(|s| s.as_str()).collect();
-    let state = std::fs::read(dir.join("state")).unwrap_or_default();
-    let lines: Vec<&[u8]> = if state.is_empty() { vec![] } else { state.split(|&c| c == b'\n').collect() };
+    // one entry `<type> <path>` per line of the state file, hex: paths are printed raw by `docker diff`, whatever
+    // bytes they hold
+    let state = std::fs::read_to_string(dir.join("state")).unwrap_or_default();
+    let entries: Vec<Vec<u8>> = state.lines().map(unhex).collect();
     match a.as_slice() {
         ["diff", _] => {
             let mut out = std::io::stdout();
-            let _ = out.write_all(&state);
+            let _ = out.write_all(&entries.join(&b'\n'));
             let _ = out.write_all(b"\n");
         }
         ["exec", _, "/busybox", "rm", "-rf", p] => {
@@ -1113,25 +1236,26 @@ fn fakedocker(args: &[String]) -> i32 {
             log.extend_from_slice(hex(p.as_bytes()).as_bytes());
             log.push(b'\n');
             let _ = std::fs::write(dir.join("rms"), log);
-            let keep: Vec<&[u8]> = lines
-                .into_iter()
+            let keep: Vec<String> = entries
+                .iter()
                 .filter(|l| match l.iter().position(|&c| c == b' ') {
                     Some(i) => !(&l[..i] == b"A" && path_of(&l[i + 1..]).starts_with(p)),
                     None => true,
                 })
+                .map(|l| hex(l))
                 .collect();
-            let _ = std::fs::write(dir.join("state"), keep.join(&b'\n'));
+            let _ = std::fs::write(dir.join("state"), keep.join("\n"));
         }
         _ => {}
     }
     0
 }
 
-/// case = `(#line ...)`: the `docker diff` of a used container.  Runs the real `DockerBuilder::clean_container`
-/// against the stand-in docker: `((rms #path ...) (ok 0|1) (after #line ...))`.
+/// case = `(#entry ...)`: what a used container holds, as `docker diff` entries `<type> <path>`.  Runs the real
+/// `DockerBuilder::clean_container` against the stand-in docker: `((rms #path ...) (ok 0|1) (after #entry ...))`.
 fn docker_case(dir: &Path, case: &Sx) -> Sx {
-    let lines: Vec<&[u8]> = case.list().iter().map(|l| l.bytes()).collect();
-    let _ = std::fs::write(dir.join("state"), lines.join(&b'\n'));
+    let entries: Vec<String> = case.list().iter().map(|l| hex(l.bytes())).collect();
+    let _ = std::fs::write(dir.join("state"), entries.join("\n"));
     let _ = std::fs::write(dir.join("rms"), b"");
     let builder = match build::DockerBuilder::new() {
         Ok(b) => b,
@@ -1144,12 +1268,8 @@ fn docker_case(dir: &Path, case: &Sx) -> Sx {
     };
     let rms = std::fs::read_to_string(dir.join("rms")).unwrap_or_default();
     let rms: Vec<Sx> = rms.lines().map(|l| Sx::B(unhex(l))).collect();
-    let state = std::fs::read(dir.join("state")).unwrap_or_default();
-    let after: Vec<Sx> = if state.is_empty() {
-        vec![]
-    } else {
-        state.split(|&c| c == b'\n').map(|l| Sx::B(l.to_vec())).collect()
-    };
+    let state = std::fs::read_to_string(dir.join("state")).unwrap_or_default();
+    let after: Vec<Sx> = state.lines().map(|l| Sx::B(unhex(l))).collect();
     let mut r = vec![Sx::sym("rms")];
     r.extend(rms);
     let mut a = vec![Sx::sym("after")];
@@ -1401,6 +1521,14 @@ pub fn main(args: &[String]) -> i32 {
     let leg = args.first().map(|s| s.as_str()).unwrap_or("");
     if leg == "fakejob" {
         return fakejob(&args[1..]);
+    }
+    if leg == "fakebwrap" {
+        return fakebwrap(&args[1..]);
+    }
+    if leg == "caps" {
+        // what this version of the hook can do beyond the first legs (feature detection for the check)
+        println!("launcher overlayfail entries");
+        return 0;
     }
     if leg == "fakedocker" {
         return fakedocker(&args[1..]);
